@@ -1,3 +1,338 @@
 //go:build verif
 
 package actor
+
+// C09 harness, part 2: scripted stop/spawn scenarios on REAL actor systems. PostStop (and, for
+// gated spawns, PreStart) of the instrumented actors block at gates the driver controls, so the
+// interleaving of the stop protocol is the scripted one. After every driver action the harness
+// waits until the system is quiescent (what the generator expects, or a timeout) and records what
+// the public/in-package accessors show: who sits in PostStop, IsRunning, PostStop completed, tree
+// registration and children. All lifecycle events carry a timestamp from one atomic counter.
+
+import (
+	"context"
+	"fmt"
+	"sort"
+	"sync"
+	"sync/atomic"
+	"testing"
+	"time"
+
+	"github.com/tochemey/goakt/v4/log"
+)
+
+type c09Scenario struct {
+	N       int       `json:"n"`
+	Gated   []int     `json:"gated"`
+	Actions [][]any   `json:"actions"`
+	Expect  [][][]int `json:"expect"`
+}
+
+type c09Event struct {
+	Seq  int64  `json:"seq"`
+	Kind string `json:"kind"` // pre, postb, poste, call, ret, spawncall, spawnret
+	A    int    `json:"a"`
+	Err  string `json:"err,omitempty"`
+}
+
+type c09ScStep struct {
+	F       int     `json:"f"`
+	O       [][]int `json:"o"`
+	Timeout bool    `json:"timeout"`
+}
+
+type c09ScOut struct {
+	Steps  []c09ScStep `json:"steps"`
+	Events []c09Event  `json:"events"`
+}
+
+type c09World struct {
+	mu        sync.Mutex
+	seq       atomic.Int64
+	events    []c09Event
+	n         int
+	pids      []*PID
+	postGate  []chan struct{}
+	preGate   []chan struct{}
+	postGated []bool
+	preGated  []bool
+	postBegan []atomic.Bool
+	postEnded []atomic.Bool
+	preBegan  []chan struct{}
+	spawnDone []chan error
+	closedPo  []bool
+	closedPr  []bool
+}
+
+func (w *c09World) log(kind string, a int, err error) {
+	e := c09Event{Seq: w.seq.Add(1), Kind: kind, A: a}
+	if err != nil {
+		e.Err = err.Error()
+	}
+	w.mu.Lock()
+	w.events = append(w.events, e)
+	w.mu.Unlock()
+}
+
+type c09Actor struct {
+	id int
+	w  *c09World
+}
+
+func (a *c09Actor) PreStart(*Context) error {
+	if a.w.preGated[a.id] {
+		select {
+		case a.w.preBegan[a.id] <- struct{}{}:
+		default:
+		}
+		<-a.w.preGate[a.id]
+	}
+	a.w.log("pre", a.id, nil)
+	return nil
+}
+
+func (a *c09Actor) Receive(ctx *ReceiveContext) {}
+
+func (a *c09Actor) PostStop(*Context) error {
+	a.w.log("postb", a.id, nil)
+	a.w.postBegan[a.id].Store(true)
+	if a.w.postGated[a.id] {
+		<-a.w.postGate[a.id]
+	}
+	a.w.postEnded[a.id].Store(true)
+	a.w.log("poste", a.id, nil)
+	return nil
+}
+
+func (w *c09World) setPID(i int, p *PID) {
+	w.mu.Lock()
+	w.pids[i] = p
+	w.mu.Unlock()
+}
+
+func (w *c09World) pid(i int) *PID {
+	w.mu.Lock()
+	defer w.mu.Unlock()
+	return w.pids[i]
+}
+
+func (w *c09World) index(p *PID) int {
+	w.mu.Lock()
+	defer w.mu.Unlock()
+	for i, q := range w.pids {
+		if q != nil && q.ID() == p.ID() {
+			return i
+		}
+	}
+	return 99
+}
+
+func (w *c09World) observe(sys ActorSystem) [][]int {
+	tr := sys.tree()
+	out := make([][]int, 0, 2*w.n)
+	for i := 0; i < w.n; i++ {
+		p := w.pid(i)
+		if p == nil {
+			out = append(out, []int{0, 0, 0, 0}, []int{})
+			continue
+		}
+		b2 := func(b bool) int {
+			if b {
+				return 1
+			}
+			return 0
+		}
+		_, reg := tr.node(p.ID())
+		if reg {
+			// the node must be THIS incarnation
+			if n, ok := tr.node(p.ID()); ok && n.value() != p {
+				reg = false
+			}
+		}
+		out = append(out, []int{b2(w.postBegan[i].Load() && !w.postEnded[i].Load()), b2(p.IsRunning()), b2(w.postEnded[i].Load()), b2(reg)})
+		ch := []int{}
+		for _, c := range tr.children(p) {
+			ch = append(ch, w.index(c))
+		}
+		sort.Ints(ch)
+		out = append(out, ch)
+	}
+	return out
+}
+
+func c09ObsEq(a, b [][]int) bool {
+	if len(a) != len(b) {
+		return false
+	}
+	for i := range a {
+		if len(a[i]) != len(b[i]) {
+			return false
+		}
+		for j := range a[i] {
+			if a[i][j] != b[i][j] {
+				return false
+			}
+		}
+	}
+	return true
+}
+
+func c09RunScenario(t *testing.T, idx int, sc c09Scenario) c09ScOut {
+	ctx := context.Background()
+	sys, err := NewActorSystem(fmt.Sprintf("verifC09s%d", idx), WithLogger(log.DiscardLogger))
+	if err != nil {
+		t.Fatal(err)
+	}
+	if err := sys.Start(ctx); err != nil {
+		t.Fatal(err)
+	}
+	n := sc.N
+	w := &c09World{n: n, pids: make([]*PID, n), postGate: make([]chan struct{}, n), preGate: make([]chan struct{}, n),
+		postGated: make([]bool, n), preGated: make([]bool, n), postBegan: make([]atomic.Bool, n), postEnded: make([]atomic.Bool, n),
+		preBegan: make([]chan struct{}, n), spawnDone: make([]chan error, n), closedPo: make([]bool, n), closedPr: make([]bool, n)}
+	for i := 0; i < n; i++ {
+		w.postGate[i] = make(chan struct{})
+		w.preGate[i] = make(chan struct{})
+		w.preBegan[i] = make(chan struct{}, 1)
+		w.spawnDone[i] = make(chan error, 1)
+	}
+	for _, g := range sc.Gated {
+		w.postGated[g] = true
+	}
+	root, err := sys.Spawn(ctx, "a0", &c09Actor{id: 0, w: w})
+	if err != nil {
+		t.Fatal(err)
+	}
+	w.setPID(0, root)
+	out := c09ScOut{}
+	name := func(i int) string { return fmt.Sprintf("a%d", i) }
+	for ai, act := range sc.Actions {
+		kind, _ := act[0].(string)
+		flag := 0
+		switch kind {
+		case "spawn":
+			p, c := c09Int(act[1]), c09Int(act[2])
+			pp := w.pid(p)
+			if pp == nil {
+				flag = 1
+				break
+			}
+			w.log("spawncall", c, nil)
+			cp, err := pp.SpawnChild(ctx, name(c), &c09Actor{id: c, w: w})
+			w.log("spawnret", c, err)
+			if err != nil {
+				flag = 1
+			} else {
+				w.setPID(c, cp)
+			}
+		case "spawn_gated":
+			p, c := c09Int(act[1]), c09Int(act[2])
+			pp := w.pid(p)
+			if pp == nil {
+				flag = 1
+				break
+			}
+			w.preGated[c] = true
+			w.log("spawncall", c, nil)
+			early := make(chan error, 1)
+			go func() {
+				cp, err := pp.SpawnChild(ctx, name(c), &c09Actor{id: c, w: w})
+				w.log("spawnret", c, err)
+				if err == nil {
+					w.setPID(c, cp)
+				}
+				early <- err
+				w.spawnDone[c] <- err
+			}()
+			select {
+			case <-w.preBegan[c]:
+			case err := <-early:
+				if err != nil {
+					flag = 1
+				}
+			case <-time.After(3 * time.Second):
+				flag = 7
+			}
+		case "spawn_release":
+			c := c09Int(act[1])
+			if !w.closedPr[c] {
+				w.closedPr[c] = true
+				close(w.preGate[c])
+			}
+			select {
+			case <-w.spawnDone[c]:
+			case <-time.After(3 * time.Second):
+				flag = 7
+			}
+		case "stop":
+			a := c09Int(act[1])
+			pp := w.pid(a)
+			if pp != nil {
+				w.log("call", a, nil)
+				go func() {
+					err := pp.Shutdown(ctx)
+					w.log("ret", a, err)
+				}()
+			}
+		case "release":
+			a := c09Int(act[1])
+			if !w.postBegan[a].Load() || w.closedPo[a] {
+				flag = 1
+			} else {
+				w.closedPo[a] = true
+				close(w.postGate[a])
+			}
+		}
+		// wait for quiescence: the expected observation, stable, or a timeout
+		var obs [][]int
+		timeout := false
+		deadline := time.Now().Add(1500 * time.Millisecond)
+		for {
+			obs = w.observe(sys)
+			if ai < len(sc.Expect) && c09ObsEq(obs, sc.Expect[ai]) {
+				time.Sleep(3 * time.Millisecond)
+				o2 := w.observe(sys)
+				if c09ObsEq(o2, obs) {
+					break
+				}
+				continue
+			}
+			if time.Now().After(deadline) {
+				timeout = true
+				break
+			}
+			time.Sleep(500 * time.Microsecond)
+		}
+		out.Steps = append(out.Steps, c09ScStep{F: flag, O: obs, Timeout: timeout})
+	}
+	// cleanup: open every gate, stop the system
+	for i := 0; i < n; i++ {
+		if !w.closedPo[i] {
+			w.closedPo[i] = true
+			close(w.postGate[i])
+		}
+		if !w.closedPr[i] {
+			w.closedPr[i] = true
+			close(w.preGate[i])
+		}
+	}
+	time.Sleep(5 * time.Millisecond)
+	w.log("sysstop", -1, nil)
+	_ = sys.Stop(ctx)
+	w.log("sysstopped", -1, nil)
+	w.mu.Lock()
+	out.Events = append(out.Events, w.events...)
+	w.mu.Unlock()
+	sort.Slice(out.Events, func(i, j int) bool { return out.Events[i].Seq < out.Events[j].Seq })
+	return out
+}
+
+// TestVerifC09Stop runs the scenarios generated by checks/C09.py.
+func TestVerifC09Stop(t *testing.T) {
+	scs := verifReadJSONL[c09Scenario](t, "c09_stop_in.jsonl")
+	w := newVerifWriter(t, "c09_stop_out.jsonl")
+	defer w.close()
+	for i, sc := range scs {
+		w.put(c09RunScenario(t, i, sc))
+	}
+}
